@@ -332,14 +332,20 @@ func vecUses(v []Operand, r int) bool {
 }
 
 // reduceInstrs enumerates the reduction instructions at position k: vector length 1..maxLen
-// over {variables, constant element, earlier registers}; matrices up to 2x2 (3x3 with a
-// fixed off-diagonal pattern when big is set).
-func reduceInstrs(n, k, maxLen int, mustUse int, big bool, f func(in Instr)) {
+// over {variables, constant element, earlier registers} (zeroConst: also a constant element that
+// is exactly zero); matrices up to 2x2 (3x3 with a fixed off-diagonal pattern when big is set).
+func reduceInstrs(n, k, maxLen int, mustUse int, big, zeroConst bool, f func(in Instr)) {
 	var el []Operand
 	for i := 0; i < n; i++ {
 		el = append(el, Operand{K: 'V', I: i})
 	}
 	el = append(el, Operand{K: 'C', V: constC})
+	if zeroConst {
+		// a constant element that is exactly zero: together with the variables (whose grid contains 0)
+		// every zero pattern of the operand vector occurs (leading, trailing, interleaved, all-zero),
+		// with smooth derivatives in the remaining entries
+		el = append(el, Operand{K: 'C', V: 0})
+	}
 	for i := 0; i < k; i++ {
 		el = append(el, Operand{K: 'R', I: i})
 	}
@@ -513,6 +519,38 @@ func usesFreshObjects(p *Program) bool {
 	return false
 }
 
+// usesConstObjects: the program reads a constant-valued magic scalar ('C' operand of a binary
+// operation, vector element) that the register-reuse modes replace by a reused object (operands
+// of unary operations and the exponent of Pow are always new objects, and so are all of them in
+// programs of more than one instruction, see libRT.run).
+func usesConstObjects(p *Program) bool {
+	if len(p.Ins) > 1 {
+		return false
+	}
+	for i := range p.Ins {
+		in := &p.Ins[i]
+		switch ops[in.Op].Kind {
+		case Unary:
+		case Binary:
+			if in.A.K == 'C' || (in.B.K == 'C' && ops[in.Op].Name != "Pow") {
+				return true
+			}
+		default:
+			for _, q := range in.Vec {
+				if q.K == 'C' {
+					return true
+				}
+			}
+			for _, q := range in.Vec2 {
+				if q.K == 'C' && !in.PlainVec2 {
+					return true
+				}
+			}
+		}
+	}
+	return false
+}
+
 // aliasVariants: every program that differs from the SSA program p only in that a non-empty
 // set of instructions (among those admitted by only) writes its result into one of its own
 // operands, and in which no later instruction reads an overwritten variable or register.
@@ -564,4 +602,39 @@ func aliasVariants(p *Program, only func(k int) bool) []Program {
 	}
 	rec(0)
 	return out
+}
+
+// zeroClasses: where the exact zeros of a depth-1 reduction's (first) operand vector sit at point x.
+func zeroClasses(in *Instr, x []float64) []string {
+	vals := make([]float64, len(in.Vec))
+	nz := 0
+	for i, q := range in.Vec {
+		vals[i] = q.V
+		if q.K == 'V' {
+			vals[i] = x[q.I]
+		}
+		if vals[i] == 0 {
+			nz++
+		}
+	}
+	switch {
+	case nz == 0:
+		return nil
+	case nz == len(vals):
+		return []string{"all-zero"}
+	}
+	var cl []string
+	if vals[0] == 0 {
+		cl = append(cl, "leading")
+	}
+	if vals[len(vals)-1] == 0 {
+		cl = append(cl, "trailing")
+	}
+	for i := 1; i < len(vals)-1; i++ {
+		if vals[i] == 0 && vals[i-1] != 0 && vals[i+1] != 0 {
+			cl = append(cl, "interleaved")
+			break
+		}
+	}
+	return cl
 }
